@@ -7,7 +7,7 @@ from vlib.runner import Spec, Suite
 
 HARNESS = ("h_generator", ["h_generator.cpp"], {})
 
-ACCESS = ("next", "anext", "call", "begin", "inc", "pinc", "for")
+ACCESS = ("next", "anext", "call", "begin", "inc", "pinc", "for", "sub", "subr")
 REJECT = ("busy", "gone", "n/a", "noit", "bad-op", "blocked", "bad")
 
 
@@ -48,12 +48,14 @@ def split_line(line):
 # random suites: (name, P(generator<int,int>), body flavours, consumer styles for generator<int> / generator<int,int>, cases quick / thorough)
 PROFILES = {
     "mixed-styles": dict(p_arg=0.35, flavours=["sync", "sync", "async", "async", "mixed", "guards"],
-                         styles_v=["next", "anext", "call", "iter", "for", "mixed", "mixed"],
-                         styles_a=["next", "anext", "call", "mixed", "mixed"], quick=3000, thorough=180000, corpus=True),
+                         styles_v=["next", "anext", "call", "sub", "iter", "for", "mixed", "mixed"],
+                         styles_a=["next", "anext", "call", "sub", "mixed", "mixed"], quick=3000, thorough=180000, corpus=True),
     "sync-access-of-async-body": dict(p_arg=0.3, flavours=["async", "mixed"], styles_v=["next", "iter", "for", "call-wait"],
                                       styles_a=["next", "call-wait"], quick=1500, thorough=120000),
-    "async-access": dict(p_arg=0.4, flavours=["async", "mixed", "sync"], styles_v=["anext", "call", "mixed"],
-                         styles_a=["anext", "call", "mixed"], quick=1500, thorough=120000),
+    "async-access": dict(p_arg=0.4, flavours=["async", "mixed", "sync"], styles_v=["anext", "call", "sub", "mixed"],
+                         styles_a=["anext", "call", "sub", "mixed"], quick=1500, thorough=120000),
+    "reentrant-callback": dict(p_arg=0.5, flavours=["async", "mixed", "args", "sync"], styles_v=["sub", "sub", "mixed"],
+                               styles_a=["sub", "sub", "mixed"], quick=2000, thorough=120000),
     "arguments": dict(p_arg=1.0, flavours=["args", "args", "mixed"], styles_v=["mixed"], styles_a=["next", "anext", "call", "mixed", "mixed"],
                       quick=1500, thorough=100000),
     "destroy-parked": dict(p_arg=0.2, flavours=["guards"], styles_v=["next", "anext", "call", "iter", "mixed"],
@@ -127,6 +129,14 @@ class GenSuite(Suite):
 
         def access(kind):
             nonlocal arg
+            if kind == "sub":
+                nre = rng.choice([0, 1, 1, 2, 3])       # re-entrant re-arms of the callback
+                if mode == "a":
+                    arg += rng.randint(1, 5)
+                    base = arg
+                    arg += nre
+                    return "subr %d %d" % (nre, base) if nre or rng.random() < 0.5 else "sub %d" % base
+                return "subr %d" % nre if nre or rng.random() < 0.5 else "sub"
             if mode == "a" and kind in ("next", "anext", "call"):
                 arg += rng.randint(1, 5)
                 return "%s %d" % (kind, arg)
@@ -160,6 +170,12 @@ class GenSuite(Suite):
                     ops += [completion() for _ in range(rng.randint(1, 2))]
                 if rng.random() < 0.8:
                     ops.append("value")
+            elif style == "sub":
+                ops = [access("sub")]
+                if ks and rng.random() < 0.7:
+                    ops += [completion() for _ in range(rng.randint(1, 3))]
+                if rng.random() < 0.4:
+                    ops.append("value")
             elif style == "call":
                 ops = [access("call")]
                 if rng.random() < 0.3:
@@ -190,7 +206,7 @@ class GenSuite(Suite):
                 if ops[0] == "anext" and ks:
                     ops.append(completion())
             else:
-                kinds = ["next", "anext", "call", "value", "complete", "fread"]
+                kinds = ["next", "anext", "call", "sub", "value", "complete", "fread"]
                 if mode == "v":
                     kinds += ["begin", "inc", "pinc", "deref", "isend", "for"]
                 k = rng.choice(kinds)
@@ -198,7 +214,7 @@ class GenSuite(Suite):
                     ops = [completion()]
                 elif k == "fread":
                     ops = [rng.choice(["fwait", "fget", "fawait", "fhas"])]
-                elif k in ("next", "anext", "call"):
+                elif k in ("next", "anext", "call", "sub"):
                     ops = [access(k)]
                     if rng.random() < 0.5:
                         ops.append("value" if k != "call" else rng.choice(["fwait", "fget", "fawait", "fhas"]))
@@ -293,7 +309,7 @@ class GenSuite(Suite):
         fut_idx = None           # access index of the future held by the harness
         fut_done = False
         last_arg = None          # argument of the most recent started access
-        it_stale = True
+        chain_left, chain_arg = 0, 0   # the callback awaiter re-arms itself chain_left more times, next argument chain_arg + 1
         dtor_seen = set()
         alive = True
         for op, line in zip(ops, out):
@@ -320,7 +336,9 @@ class GenSuite(Suite):
                     cur = nacc - 1
                 else:
                     nacc += 1
-                if len(w) > 1:
+                if kind == "subr":
+                    last_arg = int(w[2]) if len(w) > 2 else 0
+                elif len(w) > 1:
                     last_arg = int(w[1])
                 if kind == "next":
                     check_truth(started, res[0], "next()")
@@ -342,6 +360,10 @@ class GenSuite(Suite):
                         check_read(cur, res[0], "it++ (stored value)")
                 elif kind == "anext":
                     inflight = ("anext", started)
+                elif kind in ("sub", "subr"):
+                    inflight = ("sub", started)
+                    chain_left = int(w[1]) if kind == "subr" and len(w) > 1 else 0
+                    chain_arg = last_arg if last_arg is not None else 0
                 elif kind == "call":
                     if res[0] == "nomore":
                         check_item(started, "nomore", "call")
@@ -351,17 +373,21 @@ class GenSuite(Suite):
                             inflight = ("call", started)
                         else:
                             cur = started
-            # argument delivery: the body is resumed from a co_yield by access i (1 <= i <= n): it must receive exactly this call's argument
-            gots = [int(e[4:]) for e in evs if e.startswith("got=")]
-            if mode == "a":
-                for g in gots:
-                    if g != last_arg:
-                        msgs.append("argument: the body received %d, the call that resumed it passed %s" % (g, last_arg))
-                if started is not None and kind in ("next", "anext", "call") and 1 <= started <= n:
-                    if not gots or gots[0] != last_arg:
-                        msgs.append("argument: the co_yield resumed by access #%d did not return its argument %s" % (started, last_arg))
-            # completions
+            # argument delivery: the body is resumed from a co_yield by access i (1 <= i <= n): it must receive exactly this call's
+            # argument, at once; events are processed in order of occurrence (a callback may re-arm itself inside its notification)
+            need_got = None
+            if mode == "a" and started is not None and kind in ("next", "anext", "call", "sub", "subr") and 1 <= started <= n:
+                need_got = (started, last_arg)
             for e in evs:
+                if e.startswith("got="):
+                    g = int(e[4:])
+                    if mode == "a" and g != last_arg:
+                        msgs.append("argument: the body received %d, the call that resumed it passed %s" % (g, last_arg))
+                    need_got = None
+                    continue
+                if need_got is not None and not e.startswith(("helped=", "~g")):
+                    msgs.append("argument: the co_yield resumed by access #%d did not return its argument %s" % need_got)
+                    need_got = None
                 if e.startswith("anext="):
                     if not inflight or inflight[0] != "anext":
                         msgs.append("sequence: a consumer coroutine was resumed although no co_await next() was outstanding")
@@ -369,6 +395,23 @@ class GenSuite(Suite):
                         check_truth(inflight[1], e[6:], "co_await next()")
                         cur = inflight[1]
                         inflight = None
+                elif e.startswith("sub="):
+                    if not inflight or inflight[0] != "sub":
+                        msgs.append("sequence: the consumer's callback was called although no subscribe access was outstanding")
+                    else:
+                        x = e[4:]
+                        check_item(inflight[1], x, "next().subscribe(callback)")
+                        cur = inflight[1]
+                        inflight = None
+                        if x.startswith("v:") and chain_left > 0:
+                            # the callback re-arms itself from inside the notification: the next access
+                            chain_left -= 1
+                            chain_arg += 1
+                            last_arg = chain_arg
+                            inflight = ("sub", nacc)
+                            if mode == "a" and 1 <= nacc <= n:
+                                need_got = (nacc, last_arg)
+                            nacc += 1
                 elif e.startswith("fawait=") or e.startswith("fhas="):
                     if fut_idx is None:
                         msgs.append("sequence: a future reader was resumed without a future")
@@ -388,6 +431,8 @@ class GenSuite(Suite):
                     if e in dtor_seen:
                         msgs.append("destroy: guard %s destroyed twice" % e[1:])
                     dtor_seen.add(e)
+            if need_got is not None:
+                msgs.append("argument: the co_yield resumed by access #%d did not return its argument %s" % need_got)
             if kind in ("fwait", "fget") and res and res[0] not in ("nofut", "pending") and fut_idx is not None:
                 check_item(fut_idx, res[0], "future." + ("wait()" if kind == "fwait" else "value()"))
                 if inflight and inflight[0] == "call":
@@ -405,7 +450,7 @@ class GenSuite(Suite):
                 alive = False
             if kind == "end":
                 kv = dict(x.split("=") for x in res if "=" in x)
-                if inflight and (inflight[0] == "anext" or kv.get("fut") == "pending"):
+                if inflight and (inflight[0] in ("anext", "sub") or kv.get("fut") == "pending"):
                     msgs.append("lost: access #%d (%s) was never served" % (inflight[1], inflight[0]))
                 if kv.get("made") != kv.get("once") or kv.get("multi") != "0":
                     msgs.append("destroy: %s guards constructed in the body, %s destroyed exactly once, %s more than once"
@@ -417,7 +462,7 @@ class GenSuite(Suite):
     # ------------------------------------------------------------------ evidence
     def nontrivial(self, case, out):
         served = sum(1 for l in out if re.match(r"(next|begin|inc) (true|false)|call (ready|pending)|pinc v", l)) + \
-            sum(l.count("anext=") for l in out) + sum(max(0, len(l.split(" ; ")[0].split()) - 1) for l in out if l.startswith("for "))
+            sum(l.count("anext=") + l.count("sub=v") for l in out) + sum(max(0, len(l.split(" ; ")[0].split()) - 1) for l in out if l.startswith("for "))
         styles = {l.split()[0] for l in case["lines"][2:]} & set(ACCESS)
         acts = case["lines"][1].split()[1:] if len(case["lines"]) > 1 else []
         pend = any("helped=" in l for l in out) or any(l.startswith(("complete ;", "tcomplete ;")) for l in out)
@@ -453,7 +498,7 @@ class ExhSuite(GenSuite):
     """bounded-exhaustive: every script over a small alphabet up to a length x every consumer operation sequence over a small
     alphabet up to a length (quick: scripts <= 2 statements x <= 3 operations; thorough: <= 3 x <= 4), split into parts"""
     ACTS = ["y", "p0", "n", "g", "t"]
-    OPS = ["next", "value", "anext", "call", "fwait", "complete 0", "for", "destroy"]
+    OPS = ["next", "value", "anext", "call", "fwait", "complete 0", "for", "destroy", "subr 1"]
 
     def __init__(self, part, parts):
         self.name = "exhaustive-small-%d" % part
@@ -489,7 +534,7 @@ class ExhSuite(GenSuite):
                     mode = "v"
                 lines = ["case 0 %s %d" % (mode, idx % 3), "script " + " ".join(acts)]
                 for j, o in enumerate(ops):
-                    lines.append("%s %d" % (o, 10 + j) if mode == "a" and o in ("next", "anext", "call") else o)
+                    lines.append("%s %d" % (o, 10 + 2 * j) if mode == "a" and o in ("next", "anext", "call", "subr 1") else o)
                 lines.append("end")
                 cases.append({"id": 0, "lines": lines})
         return cases
